@@ -241,6 +241,18 @@ func c19RunCase(cs *c19Case, send func(c19Msg)) {
 				tokens = append(tokens, r.Token)
 			}
 			send(c19Msg{Op: k, Adds: res, Lo: lo, Hi: hi})
+		case "storm":
+			// every blob fetch fails while op.Ms listings run (their errors are what is expected and
+			// are not recorded); the store heals afterwards. Nothing of this may outlive the storm.
+			fs.SetFailAll(true)
+			from, _ := ksuid.FromParts(mut.Now(), make([]byte, 16))
+			for i := int64(0); i < op.Ms; i++ {
+				func() {
+					defer func() { _ = recover() }()
+					_, _, _ = w.ListEntries(ctx, from.String(), 1000)
+				}()
+			}
+			fs.SetFailAll(false)
 		case "list":
 			// the from-token
 			var from ksuid.KSUID
@@ -523,6 +535,8 @@ func c19BigCase(r *tr.Rng, id int, n int) c19Case {
 		nAdds += g
 		cs.Ops = append(cs.Ops, op)
 	}
+	// a storm of failed blob fetches (two listings of more than a thousand entries each) before the listings
+	cs.Ops = append(cs.Ops, c19Op{Kind: "storm", Ms: 2})
 	for _, m := range []int{1000, 999, 1 + r.Intn(1000)} {
 		cs.Ops = append(cs.Ops, c19Op{Kind: "list", Fail: -1, Base: r.Intn(nAdds), FromPl: "same", Max: m})
 	}
